@@ -61,7 +61,9 @@ def cmd_check(args):
     if result.get("harness_problems"):
         for h in result["harness_problems"][:5]:
             print("HARNESS-ERROR: " + h.replace("\n", "\n#   "))
-        return 2
+        # a replay-confirmed violation stands whatever else went wrong in other runs
+        if not result["violations"]:
+            return 2
     print(f"# done: {runs} runs, {len(result['violations'])} violation(s), {wall:.1f}s")
     return 1 if result["violations"] else 0
 
